@@ -30,7 +30,7 @@ func init() {
 		Rule: "RateLimitedIssuer.Evaluate(bytes) on requests built two ways: by pat-go's client, and entirely by the harness (own encoder, own HPKE sealing with the AAD of the draft, own key-blinded signer over crypto/ecdsa). Honest requests for a registered origin must be served and the response must finalize to a token valid under rsa.VerifyPSS. " +
 			"Must be rejected with an error and a nil response: every single-bit flip of an accepted encoding (exhaustive), every truncation, a trailing byte, a missing signature, unregistered origins (near misses of the registered names), requests sealed to another issuer's name key (key id kept and replaced), requests re-signed by an unrelated key, request key replaced and correctly re-signed (only the AAD binding catches it), AAD variants that drop or alter one component, inner requests truncated before encryption (with the empty origin registered). " +
 			"Differential part: on an issuer whose name key is derived from a seed known to the harness (verif-tagged hook) the harness decides every generated input itself (own parser, own HPKE open through go-hpke, own unpadding, origin lookup, crypto/ecdsa) - multi-bit and byte mutations, field splices between honest requests with and without re-signing, replaced-and-re-signed name key ids, (r, N-s), padded-origin and inner-request variants, foreign name keys, altered AADs - and Evaluate must agree. distinct_nontrivial = distinct (request, tampering class, position) and (class, reference reason) keys",
-		Floors:      []string{"names_registered_with_trailing_zeros_do_not_register_the_short_name", "unregistered_hostile_text_names_rejected", "unregistered_origin_rejected_after_lookup", "all_one_and_two_byte_tails_rejected", "honest_signatures_ending_in_text_framing_served", "served_pat_go_client", "served_harness_built", "response_finalized_valid", "bitflips_rejected", "truncations_rejected", "unregistered_origin_rejected", "foreign_name_key_rejected", "resigned_rejected", "aad_binding_rejected", "inner_truncated_rejected", "failed_registration_origin_rejected", "served_after_many_late_refusals", "long_origin_requests_served", "client_requests_accepted_by_reference", "differential_agree_accept", "differential_agree_reject", "differential_reject_signature", "differential_reject_hpke-open", "differential_reject_unregistered-origin", "differential_reject_outer-parse"},
+		Floors:      []string{"names_compared_byte_for_byte", "names_registered_with_trailing_zeros_do_not_register_the_short_name", "unregistered_hostile_text_names_rejected", "unregistered_origin_rejected_after_lookup", "all_one_and_two_byte_tails_rejected", "honest_signatures_ending_in_text_framing_served", "served_pat_go_client", "served_harness_built", "response_finalized_valid", "bitflips_rejected", "truncations_rejected", "unregistered_origin_rejected", "foreign_name_key_rejected", "resigned_rejected", "aad_binding_rejected", "inner_truncated_rejected", "failed_registration_origin_rejected", "served_after_many_late_refusals", "long_origin_requests_served", "client_requests_accepted_by_reference", "differential_agree_accept", "differential_agree_reject", "differential_reject_signature", "differential_reject_hpke-open", "differential_reject_unregistered-origin", "differential_reject_outer-parse"},
 		Assumptions: []string{"enumerated part: acceptance is fixed by construction of each case; differential part: the issuer's name key comes from a known seed through the verif hook", "an inner request with trailing bytes after the padded origin is only counted (no rule in the statement)"},
 		Run:         runC07,
 	})
@@ -293,7 +293,7 @@ func runC07(c *core.Ctx) {
 	if c.Next() {
 		r := c.CaseRng()
 		iss := type3.NewRateLimitedIssuer(w.key)
-		for _, o := range []string{"origin.example\x00", "origin.example\x00\x00", "\x00", "other.example\x00\x00\x00", "registered.example"} {
+		for _, o := range []string{"origin.example\x00", "origin.example\x00\x00", "\x00", "other.example\x00\x00\x00", "registered.example", "shop\xff.example", "Caf\u00e9.example", "\xe2\x82.example"} {
 			iss.AddOrigin(o)
 		}
 		nkZ, err := parseNameKey(iss.NameKey().Marshal())
@@ -303,6 +303,13 @@ func runC07(c *core.Ctx) {
 			wz.mustReject(wz.build(r, c07Opts{origin: o}).enc, "name-registered-only-with-trailing-zero-bytes", "names_registered_with_trailing_zeros_do_not_register_the_short_name")
 		}
 		wz.mustServe(wz.build(r, c07Opts{origin: "registered.example"}), "registered-next-to-names-with-trailing-zero-bytes")
+		// names that differ from a registered one only in bytes that are not UTF-8, in case, or in Unicode normalisation
+		for _, o := range []string{"shop\xfe.example", "shop\xff\xff.example", "shop\ufffd.example", "shop.example", "cafe\u0301.example", "caf\u00e9.example", "CAF\u00c9.EXAMPLE", "\xe2\x82\xac.example", "\xe2.example", "\ufffd.example", "REGISTERED.EXAMPLE", "registered.example."} {
+			wz.mustReject(wz.build(r, c07Opts{origin: o}).enc, "name-differing-in-non-utf8-bytes-case-or-normalisation", "names_compared_byte_for_byte")
+		}
+		for _, o := range []string{"shop\xff.example", "Caf\u00e9.example", "\xe2\x82.example"} {
+			wz.mustServe(wz.build(r, c07Opts{origin: o}), "registered-name-that-is-not-ascii")
+		}
 		for _, o := range HostileNames() {
 			wz.mustReject(wz.build(r, c07Opts{origin: o}).enc, "unregistered-hostile-text-name", "unregistered_hostile_text_names_rejected")
 		}
